@@ -655,6 +655,13 @@ impl<Config: endpoint::Config> ApplicationSpace<Config> {
         //# removal, packet number recovery, and packet protection removal MUST
         //# be applied together without timing and other side channels.
 
+        // Reaching the integrity limit ends the connection whatever packet number the
+        // unauthenticated packet claims to have
+        let decrypted = match decrypted {
+            Err(err @ ProcessingError::ConnectionError(_)) => return Err(err),
+            other => other,
+        };
+
         // We perform decryption prior to checking for duplicate to avoid short-circuiting
         // and maintain constant-time operation.
         if self.is_duplicate(packet_number, path_id, path, publisher) {
